@@ -355,9 +355,6 @@ Definition op_ok3 (w : world) (o : op) : Prop :=
   | ONewItem _ c tid _ _ => childcls c -> NAtid w tid
   | ONewSolsys x => get_ss w x = None
   | OCharge m _ => forall mit, get_item w m = Some mit -> direct mit
-  | OSolsysAdd x f =>
-    let w1 := upd_fit (ss_set_fits w x (set_add neqb (ss_fit_list w x) f)) f (fun ft => fit_set_solsys ft (Some x)) in
-    NoDup (fit_list w1 f) /\ forall j, In j (fit_list w1 f) -> dir_unloaded w1 j
   | OSource x new =>
     (forall y, get_ss w x = Some y -> onat_eqb (ss_source y) new = false -> LS (fst (src_mid (w, []) x y new))) /\
     forall y, get_ss w x = Some y -> new <> None ->
@@ -606,7 +603,6 @@ Proof.
   - intros H [->| ->]; now apply NAtidb_ok.
   - intros H. destruct (get_ss w s); [discriminate|reflexivity].
   - intros H mit G. rewrite G in H. now apply directb_ok.
-  - apply list_okb_ok.
   - intros H. split.
     + intros y Gy Hne. rewrite Gy in H. apply andb_true_iff in H as (H1 & _). rewrite Hne in H1. now apply LSb_ok.
     + intros y Gy Hn. rewrite Gy in H. apply andb_true_iff in H as (_ & H2).
